@@ -68,7 +68,8 @@ CHECKS = {
             "TLA+ layout specification (ProtoLayout.tla: FFOW, Savage 2, JC2M, Mindustry; ValveLayout.tla for The Ship / Battalion 1944) "
             "enumerated by TLC and replayed into each game's query function; Eco over a real loopback HTTP server",
             "Every layout shape of the single-game formats is concretised with random values and the game's query result compared field by "
-            "field with the expectation computed from the spec's table.",
+            "field with the expectation computed from the spec's table; GameMaps.tla gives the field mapping of The Ship (incl. required "
+            "sections), the Battalion 1944 overrides and the Eco JSON mapping, each replayed (Eco over a real loopback HTTP server).",
             "Trusted: TLC, harness generic layout interpreter."),
     "C08": ("model_checking",
             "Reassembly.tla (environment delivers fragments in any order, at most one duplicated) model-checked with TLC "
@@ -81,20 +82,23 @@ CHECKS = {
             "checked (no sequence numbers exist to detect them)."),
     "C09": ("model_checking",
             "request templates in TLA+ (Templates.tla) + exchange specifications (ValveA2S.tla ...) model-checked with TLC "
-            "(ChallengeEchoed, OnlySectionRequests); TLC behaviours replayed, every recorded send compared byte for byte",
+            "(ChallengeEchoed, OnlySectionRequests; Exchange.tla ChallengeFresh, OnlyProtocolRequests); TLC behaviours replayed, every "
+            "recorded send compared byte for byte; recorded random valve exchanges validated by TLC against Trace_ValveA2S.tla",
             "Every request the client emits during every TLC-enumerated behaviour (challenge rounds, retries, gather settings) is compared byte "
             "for byte with the request the specification prescribes, including the challenge echo for stratified challenge values "
             "(each byte from {00, 41, FF, other}), and the destination address/port.",
             "Trusted: TLC, scripted transport hook. Challenge values are stratified, not exhaustive over 2^32."),
     "C10": ("fault_enumeration",
             "retry contract inside the TLA+ exchange specifications, model-checked with TLC (AttemptsBounded, RetryOnlyAfterTimeout, "
-            "ErrorClassFaithful); every per-attempt outcome vector TLC enumerates is replayed through the scripted transport",
+            "ErrorClassFaithful; ValveA2S.tla, Exchange.tla, Unreal2.tla); every per-attempt outcome vector TLC enumerates is replayed "
+            "through the scripted transport; recorded random valve exchanges (r up to 5) validated by TLC against Trace_ValveA2S.tla",
             "TLC enumerates all per-attempt outcome vectors over {silent, malformed, valid, short split} for r in 0..2 (quick) / 0..3 (thorough) at "
             "each request position; each is scripted and run; number and bytes of sends, result class and result value are compared with the model.",
             "Trusted: TLC, scripted transport hook, reference replies built from the layout tables."),
     "C11": ("model_checking",
             "gather/app-id rules inside ValveA2S.tla (and Unreal2.tla) model-checked with TLC (SkipNeverRequested, TryIsolates, "
-            "EnforcePropagates, AppIdRule); the full toggle x outcome x app-id matrix generated by TLC is replayed",
+            "EnforcePropagates, AppIdRule); the full toggle x outcome x app-id matrix generated by TLC is replayed; recorded random "
+            "valve exchanges validated by TLC against Trace_ValveA2S.tla (TSkipNeverRequested at every step)",
             "All 9 toggle pairs x section outcomes {valid, silent, malformed, challenge-then-silent} x expectation {none, main, main+dedicated} x "
             "reported id {main, dedicated, other} x check on/off are enumerated by TLC and replayed; requests seen on the wire, section presence "
             "and error kind are compared with the model.",
